@@ -15,8 +15,8 @@ THEOREMS = ["C12.c12_capacity", "C12.c12", "C12.c12_stable", "C12.get_step", "C1
 def decode_events(case):
     from tpmstream.io.binary import Binary
     from tpmstream.spec.structures.constants import TPM_CC
-    t, cc, enc, data = case
-    kw = dict(tpm_type=canon.resolve_type(t), buffer=bytes(data), abort_on_error=True)
+    t, cc, enc, data = case[:4]
+    kw = dict(tpm_type=canon.resolve_type(t), buffer=bytes(data), abort_on_error=(len(case) < 5 or case[4] != "W"))
     if cc is not None:
         kw["command_code"] = TPM_CC(cc)
     if enc:
@@ -109,6 +109,22 @@ def run(ctx, replay_case):
         r = M.response(cc, nsess=1, encrypt=True)
         if r:
             pool_all.append(("Response", cc, True, r[1]))
+    # structures (stand-alone decodes share no constraint list with anything) and inputs whose decode fails or is abandoned
+    pool_struct = []
+    for key in rnd.sample([x for x in L["structures"] if L["types"][x]["kind"] != "union"], 40):
+        r = M.G.gen(key)
+        if r and r[1]:
+            pool_struct.append((key, None, False, r[1]))
+    pool_bad = []
+    for p in rnd.sample(pool_enc + pool_plain + pool_struct, 40):
+        d = p[3]
+        k = rnd.randrange(len(d))
+        pool_bad.append((p[0], p[1], p[2], d[:k]))                                  # truncated, strict
+        pool_bad.append((p[0], p[1], p[2], d[:k], "W"))                             # truncated, warn mode
+        b = bytearray(d)
+        b[k] ^= 1 << rnd.randrange(8)
+        pool_bad.append((p[0], p[1], p[2], bytes(b)))                               # corrupted, strict
+        pool_bad.append((p[0], p[1], p[2], bytes(b), "W"))                          # corrupted, warn mode
     nh = 300 if ctx.tier == "quick" else 3000
     failures = 0
     shapes = collections.Counter()
@@ -137,10 +153,37 @@ def run(ctx, replay_case):
                                               "others_needed": lo,
                                               "how": "decode the listed inputs in order in one process and compare the first and the last"}})
     for h in range(nh):
-        kind = rnd.choice(["ABA", "ABA", "ABCA", "ABAB", "AxA", "interleaved2", "interleaved3", "stream"])
+        kind = rnd.choice(["ABA", "ABA", "ABCA", "ABAB", "AxA", "interleaved2", "interleaved3", "stream",
+                           "A,failed,A", "A,failed,A", "A,abandoned,A", "S,failed,S"])
         a, b, c = rnd.sample(pool_enc, 3)
         x = rnd.choice(pool_plain)
         sched = None
+        if kind in ("A,failed,A", "S,failed,S", "A,abandoned,A"):
+            # a decode that fails (rejected / truncated input, either mode) or is dropped half-way, between two decodes of A
+            a1 = rnd.choice(pool_struct) if kind == "S,failed,S" else rnd.choice(pool_enc + pool_plain + pool_struct)
+            bad_case = rnd.choice(pool_bad)
+            shapes[kind] += 1
+            r1 = drain(decode_events(a1))
+            if kind == "A,abandoned,A":
+                g = decode_events(rnd.choice(pool_enc + pool_struct))
+                try:
+                    for _ in range(rnd.randrange(1, 12)):
+                        next(g)
+                except Exception:  # noqa
+                    pass
+                del g
+            else:
+                drain(decode_events(bad_case))
+            r2 = drain(decode_events(a1))
+            if r1 != r2:
+                failures += 1
+                ctx.violations.append({"kind": "concrete", "signature": "history:after-failed",
+                                       "what": f"history {kind}: the two decodes of the same input differ "
+                                               f"({'events' if r1[0] != r2[0] else 'result'})",
+                                       "replay": {"history": [(a1[0], a1[1], a1[2], a1[3].hex()),
+                                                              (bad_case[0], bad_case[1], bad_case[2], bad_case[3].hex(), bad_case[4] if len(bad_case) > 4 else "S"),
+                                                              (a1[0], a1[1], a1[2], a1[3].hex())], "shape": kind}})
+            continue
         if kind == "ABA":
             hist = [a, b, a]
         elif kind == "ABCA":
@@ -190,7 +233,8 @@ def run(ctx, replay_case):
         "evaluations": nh, "distinct_nontrivial": nh - shapes.get("AxA", 0),
         "rule": "histories over messages with encrypted parameter areas of different commands (all eligible command codes): sequential "
                 "A,B,A / A,B,C,A / A,B,A,B / A,plain,A, step-wise interleaved live generators under seeded random schedules (2-3 decodes "
-                "in flight), repeated stream decodes; decodes of equal arguments must yield == event lists and == objects, and the type "
+                "in flight), repeated stream decodes, a failing decode (rejected / truncated input, strict or warn mode) or a decode dropped "
+                "half-way between two decodes of the same message or structure; decodes of equal arguments must yield == event lists and == objects, and the type "
                 "rebuilt by events_to_obj must be the decoder's; non-trivial = at least two different encrypted areas in the history",
         "samples": samples,
         "correspondence": {"cache_capacity_read_from_source": cap, "model": "Cache.run over the class names of the history"},
